@@ -9,7 +9,6 @@ CLAIMED = {
  "C17": ("CrossHair (z3) symbolic execution of the real CaseInsensitiveOrderedDict: one inductive step per operation from every reachable 3-key state vs a reference model",
          "Bounded symbolic execution: every dict operation from every reachable state over a 4-key/4-spelling alphabet (symbolic values, order, presence, factory) equals an OrderedDict-on-lower-cased-keys model, representation invariant included; histories of any length follow by induction over the step.",
          "Trusted: CPython's OrderedDict, CrossHair/z3. Keys are realised by hashing, so the key/order space is enumerated by solver case splits; values stay symbolic (pickle: concrete values).", "§4 C17"),
-}
  "C18": ("CrossHair (z3) symbolic execution of the real dictutils.update/find/findall/findunique/findkey against reference models written from the property statement",
          "Bounded symbolic execution: update() over every combination of patch-shape tags (scalar / '__delete__' / nested dict / list with None, deletions, appends; both overwrite modes) with symbolic leaves equals the reference merge and leaves the patch unchanged; find/findall/findunique/findkey on 3 items with symbolic presence, symbolic string values (len<=2) and queries equal the reference and leave items unchanged.",
          "Trusted: CrossHair/z3. Shapes bounded (3 items, depth 3); statement-silent corners (deleting absent objects via dict marker, None beyond list end, empty lists) are not asserted.", "§4 C18"),
